@@ -36,19 +36,27 @@ func init() {
 
 // repoFuncs lists every function of the repo (declared, methods, closures, instantiations), sorted by name.
 func (c *Ctx) repoFuncs() []*ssa.Function {
+	if c.repoFuncsCache != nil {
+		return append([]*ssa.Function(nil), c.repoFuncsCache...)
+	}
 	var out []*ssa.Function
 	for fn := range ssautil.AllFunctions(c.Prog) {
 		if c.isRepoFunc(fn) && len(fn.Blocks) > 0 {
 			out = append(out, fn)
 		}
 	}
+	names := map[*ssa.Function]string{}
+	for _, f := range out {
+		names[f] = fname(f)
+	}
 	sort.Slice(out, func(i, j int) bool {
-		if fname(out[i]) != fname(out[j]) {
-			return fname(out[i]) < fname(out[j])
+		if names[out[i]] != names[out[j]] {
+			return names[out[i]] < names[out[j]]
 		}
 		return out[i].Pos() < out[j].Pos()
 	})
-	return out
+	c.repoFuncsCache = out
+	return append([]*ssa.Function(nil), out...)
 }
 
 // srcFuncs: repo functions written in source (no synthetic wrappers, thunks or instantiation shells).
@@ -572,11 +580,19 @@ func ruleValidate(c *Ctx) {
 		sp := c.SSA[pkgPath]
 		// (a) Unmarshal* methods on *T
 		ms := c.Prog.MethodSets.MethodSet(types.NewPointer(T))
+		ownDecoder := false
 		for i := 0; i < ms.Len(); i++ {
 			sel := ms.At(i)
-			if !strings.HasPrefix(sel.Obj().Name(), "Unmarshal") || len(sel.Index()) != 1 {
+			if !strings.HasPrefix(sel.Obj().Name(), "Unmarshal") {
 				continue
 			}
+			if len(sel.Index()) != 1 {
+				// promoted from an embedded field: it decodes the embedded part and knows nothing of T's validate
+				c.site(1)
+				c.bad(tn+"."+sel.Obj().Name()+"|promoted", c.pos(T.Obj().Pos()), tn, fmt.Sprintf("%s is decoded by %s of an embedded type, which does not call %s.%s: invalid values (e.g. 0) are accepted from YAML", tn, sel.Obj().Name(), tn, vm.Name()))
+				continue
+			}
+			ownDecoder = true
 			fn := c.Prog.FuncValue(sel.Obj().(*types.Func))
 			if fn == nil || len(fn.Blocks) == 0 {
 				continue
@@ -584,6 +600,12 @@ func ruleValidate(c *Ctx) {
 			c.site(1)
 			ok, where := c.errCovered(fn, 0, isV)
 			c.check(ok, fname(fn), c.pos(fn.Pos()), fname(fn), "decoder validates before returning nil", fmt.Sprintf("decoder of %s can return a nil error (at %s) without calling %s: invalid values (e.g. 0) are accepted from YAML", tn, where, vm.Name()))
+		}
+		// ... and a validated type that is read from YAML inside another value has a decoder of its own (field-by-field
+		// decoding never calls validate); elements of a top-level decoded slice are judged with their slice decoder (c)
+		if !ownDecoder && c.decodedInside()[T] {
+			c.site(1)
+			c.bad(tn+"|decoder", c.pos(T.Obj().Pos()), tn, fmt.Sprintf("%s is read from YAML as part of another value but has no decoder of its own: its fields are filled in directly and %s is never called (invalid values are accepted from YAML)", tn, vm.Name()))
 		}
 		// (b) constructors in the declaring package: func(...) (T|*T, error)
 		for _, mem := range sp.Members {
@@ -686,6 +708,18 @@ func ruleValidate(c *Ctx) {
 					if callee := staticCallee(&call.Call); callee != nil && c.isRepoFunc(callee) && callee.Pkg == f.Pkg {
 						if n := accessorOfField(callee); n != "" {
 							fld, site = n, call
+						} else if n, pi := c.referenceLookupHelper(callee); n != "" && pi < len(call.Call.Args) {
+							// a helper that takes the chord and looks up what it extends: the existence check of `extends`
+							// when the chord handed over is an entry of the table (the walk along the links is judged by RECUR)
+							if c.isTableEntry(tr, lval{call.Call.Args[pi], f, nil}) {
+								nChecks++
+								for _, g := range guardsOf(call.Block(), lval{nil, f, nil}) {
+									if !rangeGuard(tr.trace(g.cond).v) {
+										problem = "the check of a chord's " + n + " reference is skipped under a further condition (" + c.pos(call.Pos()) + "): some entries of the table are not validated"
+									}
+								}
+							}
+							return
 						}
 					}
 				}
@@ -777,6 +811,283 @@ func ruleValidate(c *Ctx) {
 	}
 	// Map: only NewMap constructs it
 	c.checkSoleConstructor("chord", "Map", "NewMap")
+}
+
+// rangeGuard: the condition of a range loop (more elements), not a condition on the element.
+func rangeGuard(v ssa.Value) bool {
+	switch x := v.(type) {
+	case *ssa.Extract:
+		_, isNext := x.Tuple.(*ssa.Next)
+		return isNext
+	case *ssa.BinOp:
+		return x.Op == token.LSS
+	}
+	return false
+}
+
+// isTableEntry: the value is an element obtained by ranging over a map (the chord table).
+func (c *Ctx) isTableEntry(tr *tracer, l lval) bool {
+	v := tr.trace(l).v
+	for i := 0; i < 6; i++ {
+		switch x := v.(type) {
+		case *ssa.Extract:
+			_, isNext := x.Tuple.(*ssa.Next)
+			return isNext && x.Index == 2
+		case *ssa.UnOp:
+			if x.Op != token.MUL {
+				return false
+			}
+			// a local that holds the range value
+			a, ok := x.X.(*ssa.Alloc)
+			if !ok {
+				return false
+			}
+			var src ssa.Value
+			for _, r := range *a.Referrers() {
+				if st, ok := r.(*ssa.Store); ok && st.Addr == ssa.Value(a) {
+					if src != nil {
+						return false
+					}
+					src = st.Val
+				}
+			}
+			if src == nil {
+				return false
+			}
+			v = src
+		default:
+			return false
+		}
+	}
+	return false
+}
+
+// referenceLookupHelper: fn takes a chord and answers (parent, found) by looking up the chord's Extends in the chord
+// table; the only way round the lookup is an empty Extends. Returns the table's field name and the index of the chord
+// parameter.
+func (c *Ctx) referenceLookupHelper(fn *ssa.Function) (string, int) {
+	if fn == nil || len(fn.Blocks) == 0 || fn.Signature.Results().Len() != 2 || len(callsIn(fn)) != 0 {
+		return "", -1
+	}
+	if b, ok := fn.Signature.Results().At(1).Type().Underlying().(*types.Basic); !ok || b.Kind() != types.Bool {
+		return "", -1
+	}
+	// parameters spilled into locals
+	spill := map[ssa.Value]int{}
+	for i, p := range fn.Params {
+		spill[p] = i
+		for _, r := range *p.Referrers() {
+			if st, ok := r.(*ssa.Store); ok && st.Val == ssa.Value(p) {
+				if a, ok := st.Addr.(*ssa.Alloc); ok {
+					spill[a] = i
+				}
+			}
+		}
+	}
+	extendsOf := func(v ssa.Value) int {
+		n, base, ok := loadedFieldOrField(v)
+		if !ok || n != "Extends" {
+			return -1
+		}
+		if u, ok := base.(*ssa.UnOp); ok && u.Op == token.MUL {
+			base = u.X
+		}
+		if i, ok := spill[base]; ok {
+			return i
+		}
+		return -1
+	}
+	var lk *ssa.Lookup
+	n := 0
+	allInstrs(fn, func(in ssa.Instruction) {
+		if l, ok := in.(*ssa.Lookup); ok {
+			if _, isMap := l.X.Type().Underlying().(*types.Map); isMap {
+				n++
+				lk = l
+			}
+		}
+	})
+	if n != 1 || !lk.CommaOk {
+		return "", -1
+	}
+	fld, _, isField := loadedField(lk.X)
+	pi := extendsOf(lk.Index)
+	if !isField || fld != "chords" || pi < 0 {
+		return "", -1
+	}
+	for _, r := range returnsOf(fn) {
+		switch x := retVal(r, 1).(type) {
+		case *ssa.Const:
+			if x.Value == nil || constant.BoolVal(x.Value) {
+				return "", -1
+			}
+		case *ssa.Extract:
+			if x.Tuple != ssa.Value(lk) || x.Index != 1 {
+				return "", -1
+			}
+		default:
+			return "", -1
+		}
+	}
+	for _, g := range guardsOf(lk.Block(), lval{nil, fn, nil}) {
+		b, ok := g.cond.v.(*ssa.BinOp)
+		if !ok {
+			return "", -1
+		}
+		if s, isStr := constString(b.Y); !isStr || s != "" || extendsOf(b.X) != pi {
+			return "", -1
+		}
+	}
+	return fld, pi
+}
+
+// sliceLenInterval: the length of slice v at block blk of fn lies in [lo, hi]: what the maker of the slice promises
+// (strings.SplitN with a separator gives 1..n pieces), narrowed by every test of len(v) on the way to blk; for a
+// parameter of an unexported function that is only called directly, what holds at every call site.
+func (c *Ctx) sliceLenInterval(fn *ssa.Function, v ssa.Value, blk *ssa.BasicBlock, depth int) (int64, int64) {
+	ac := &affCtx{c: c, fn: fn, alias: map[ssa.Value]string{}}
+	xs := ac.describe(v)
+	// the length is somewhere in [lo, hi]: what the maker of the slice promises (strings.SplitN with a separator
+	// gives 1..n pieces), narrowed by every test of len(X) on the way
+	lo, hi := int64(0), int64(1)<<40
+	if call, ok := v.(*ssa.Call); ok {
+		switch calleeName(&call.Call) {
+		case "strings.SplitN":
+			if sep, ok := constString(call.Call.Args[1]); ok && sep != "" {
+				if n, ok := constInt(call.Call.Args[2]); ok && n > 0 {
+					lo, hi = 1, n
+				}
+			}
+		case "strings.Split":
+			if sep, ok := constString(call.Call.Args[1]); ok && sep != "" {
+				lo = 1
+			}
+		}
+	}
+	for _, pc := range pathConds(blk) {
+		cmp, ok := pc.cond.(*ssa.BinOp)
+		if !ok {
+			continue
+		}
+		x, y, op := cmp.X, cmp.Y, cmp.Op
+		if _, isConst := x.(*ssa.Const); isConst {
+			x, y = y, x
+			switch op {
+			case token.LSS:
+				op = token.GTR
+			case token.GTR:
+				op = token.LSS
+			case token.LEQ:
+				op = token.GEQ
+			case token.GEQ:
+				op = token.LEQ
+			}
+		}
+		lc, ok := x.(*ssa.Call)
+		if !ok || calleeName(&lc.Call) != "builtin.len" || ac.describe(lc.Call.Args[0]) != xs {
+			continue
+		}
+		n, ok := constInt(y)
+		if !ok {
+			continue
+		}
+		if !pc.side {
+			// the negation of the test
+			switch op {
+			case token.EQL:
+				op = token.NEQ
+			case token.NEQ:
+				op = token.EQL
+			case token.GTR:
+				op = token.LEQ
+			case token.GEQ:
+				op = token.LSS
+			case token.LSS:
+				op = token.GEQ
+			case token.LEQ:
+				op = token.GTR
+			}
+		}
+		switch op {
+		case token.EQL:
+			lo, hi = max(lo, n), min(hi, n)
+		case token.NEQ:
+			if lo == n {
+				lo++
+			}
+			if hi == n {
+				hi--
+			}
+		case token.GTR:
+			lo = max(lo, n+1)
+		case token.GEQ:
+			lo = max(lo, n)
+		case token.LSS:
+			hi = min(hi, n-1)
+		case token.LEQ:
+			hi = min(hi, n)
+		}
+	}
+	if p, ok := v.(*ssa.Parameter); ok && depth < 3 && !isExportedFn(fn) && fn.Parent() == nil {
+		pi := paramIndexOf(fn, p)
+		sites := 0
+		clo, chi := int64(1)<<40, int64(0)
+		okAll := pi >= 0
+		for _, caller := range c.srcFuncs() {
+			for _, ci := range callsIn(caller) {
+				if staticCallee(ci.Common()) != fn {
+					// the function used as a value: callers unknown
+					for _, a := range ci.Common().Args {
+						if a == ssa.Value(fn) {
+							okAll = false
+						}
+					}
+					continue
+				}
+				if pi >= len(ci.Common().Args) {
+					okAll = false
+					continue
+				}
+				sites++
+				l, h := c.sliceLenInterval(caller, ci.Common().Args[pi], ci.Block(), depth+1)
+				clo, chi = min(clo, l), max(chi, h)
+			}
+		}
+		if okAll && sites > 0 && !c.usedAsValue(fn) {
+			lo, hi = max(lo, clo), min(hi, chi)
+		}
+	}
+	return lo, hi
+}
+
+// usedAsValue: the function is referred to other than as the callee of a direct call (stored, passed, bound).
+func (c *Ctx) usedAsValue(fn *ssa.Function) bool {
+	for _, f := range c.srcFuncs() {
+		used := false
+		allInstrs(f, func(in ssa.Instruction) {
+			for _, op := range in.Operands(nil) {
+				if *op != ssa.Value(fn) {
+					continue
+				}
+				if ci, ok := in.(ssa.CallInstruction); ok && ci.Common().Value == ssa.Value(fn) {
+					isArg := false
+					for _, a := range ci.Common().Args {
+						if a == ssa.Value(fn) {
+							isArg = true
+						}
+					}
+					if !isArg {
+						continue
+					}
+				}
+				used = true
+			}
+		})
+		if used {
+			return true
+		}
+	}
+	return false
 }
 
 // delegatesTo: fn returns (x, err) straight from another function returning (T, error).
@@ -1089,6 +1400,70 @@ var fmtOnlyPrinters = map[string]string{
 
 var reviewedDirectPrints = map[string]string{}
 
+// reviewedConstIndex: constant positions taken from slices without a length test in front, with the reason they exist.
+var reviewedConstIndex = map[string]string{
+	"index|op.CircleMember.Head|slices.Collect(maps.Values(p0.scales))[0]":                                        "a circle member is built from at least one seed spelling (TAB-CIRCLE: no empty slot)",
+	"index|cmd.writeCmdConv.RunE|cmd.newWriteCmdArgsFromInputInstances(p0,var<[]*input.Instance>)#0.instances[0]": "as long as the input list, whose length is tested on the line before",
+}
+
+// submatchGroups: v is (a re-slicing of) one match of a package-level regular expression with a constant pattern: the
+// number of capture groups of the pattern and the offset the re-slicing adds.
+func (c *Ctx) submatchGroups(v ssa.Value) (groups, offset int, ok bool) {
+	for i := 0; i < 4; i++ {
+		sl, isSlice := v.(*ssa.Slice)
+		if !isSlice {
+			break
+		}
+		if sl.Low != nil {
+			k, isK := constInt(sl.Low)
+			if !isK {
+				return 0, 0, false
+			}
+			offset += int(k)
+		}
+		v = sl.X
+	}
+	var call *ssa.Call
+	switch x := v.(type) {
+	case *ssa.Call:
+		call = x
+	case *ssa.UnOp:
+		if ia, isIA := x.X.(*ssa.IndexAddr); isIA && x.Op == token.MUL {
+			call, _ = ia.X.(*ssa.Call)
+		}
+	}
+	if call == nil {
+		return 0, 0, false
+	}
+	// one match: the result of FindStringSubmatch itself, or an element of what FindAllStringSubmatch returns
+	_, direct := v.(*ssa.Call)
+	switch calleeName(&call.Call) {
+	case "regexp.Regexp.FindStringSubmatch":
+		if !direct {
+			return 0, 0, false
+		}
+	case "regexp.Regexp.FindAllStringSubmatch":
+		if direct {
+			return 0, 0, false
+		}
+	default:
+		return 0, 0, false
+	}
+	ld, isLoad := call.Call.Args[0].(*ssa.UnOp)
+	if !isLoad || ld.Op != token.MUL {
+		return 0, 0, false
+	}
+	g, isG := ld.X.(*ssa.Global)
+	if !isG {
+		return 0, 0, false
+	}
+	re := c.globalTable(g).re
+	if re == nil {
+		return 0, 0, false
+	}
+	return re.NumSubexp(), offset, true
+}
+
 // reviewedMustSites: non-constant call sites of wrappers outside initialisers, with the invariant another rule checks.
 var reviewedMustSites = map[string]string{
 	"op.circleMemberSeed.member -> op.MustNewScale": "seeds are string literals; TAB-CIRCLE proves every seed has a signature row and a scale",
@@ -1113,6 +1488,7 @@ func (c *Ctx) panicPrimitiveCall(ci ssa.CallInstruction) bool {
 var reviewedAsserts = map[string]string{}
 
 func ruleMust(c *Ctx) {
+	c.checkDecodedNilElements()
 	var fns []*ssa.Function
 	for _, fn := range c.repoFuncs() {
 		if fn.Synthetic == "" {
@@ -1197,6 +1573,43 @@ func ruleMust(c *Ctx) {
 		})
 	}
 	_ = nIdx
+	// an element taken at a constant position of a slice: a test of the slice's length that covers the position stands in
+	// front of it, or the site is reviewed (the slice has that many elements by construction)
+	for _, fn := range fns {
+		if strings.HasSuffix(c.Fset.PositionFor(fn.Pos(), false).Filename, "_generated.go") {
+			continue
+		}
+		allInstrs(fn, func(in ssa.Instruction) {
+			ia, ok := in.(*ssa.IndexAddr)
+			if !ok {
+				return
+			}
+			if _, isSlice := ia.X.Type().Underlying().(*types.Slice); !isSlice {
+				return
+			}
+			k, isK := constInt(ia.Index)
+			if !isK {
+				return
+			}
+			ac := &affCtx{c: c, fn: fn, alias: map[ssa.Value]string{}}
+			xs := ac.describe(ia.X)
+			key := fmt.Sprintf("index|%s|%s[%d]", c.ownerName(fn), xs, k)
+			c.site(1)
+			if why, ok := reviewedConstIndex[key]; ok {
+				c.ok(key, c.pos(ia.Pos()), fname(fn), "reviewed: "+why)
+				return
+			}
+			guarded := false
+			// a capture of a regular expression: a submatch slice has one element per group plus one
+			if n, off, ok := c.submatchGroups(ia.X); ok && int(k)+off <= n {
+				c.ok(key, c.pos(ia.Pos()), fname(fn), fmt.Sprintf("capture %d of a pattern with %d groups", int(k)+off, n))
+				return
+			}
+			lo, _ := c.sliceLenInterval(fn, ia.X, ia.Block(), 0)
+			guarded = k < lo
+			c.check(guarded, key, c.pos(ia.Pos()), fname(fn), fmt.Sprintf("len(%s) is tested before element %d is taken", xs, k), fmt.Sprintf("%s takes element %d of %s without a test of its length in front: when the slice is shorter (an empty piece, say) crd panics with index out of range instead of reporting an error", fname(fn), k, xs))
+		})
+	}
 	// P0: functions that reach a panic primitive directly
 	p0 := map[string]*ssa.Function{}
 	for _, fn := range fns {
@@ -1414,6 +1827,9 @@ func ruleRecur(c *Ctx) {
 			c.checkExtendsAcyclic()
 		}
 	}
+	// a channel is filled by a goroutine of its own: whoever makes a channel and then starts the code that sends on it must
+	// start that code with `go`, or a producer with more to send than the buffer holds blocks for ever (the consumer runs later)
+	c.checkChannelProducers(cg)
 	// condition-only loops
 	c.checkCondLoops()
 	if len(c.extendsWalks) > 0 && !c.extendsChecked {
@@ -2254,4 +2670,134 @@ func (c *Ctx) ownerName(fn *ssa.Function) string {
 		return fname(fn)
 	}
 	return fname(cur)
+}
+
+// checkChannelProducers: for every make(chan) in the repository, the calls of the making function that can reach a send on
+// a channel (through the call graph) are goroutine starts.
+func (c *Ctx) checkChannelProducers(cg *callgraph.Graph) {
+	// functions that can reach a Send
+	sends := map[*ssa.Function]bool{}
+	for _, fn := range c.srcFuncs() {
+		allInstrs(fn, func(in ssa.Instruction) {
+			if _, ok := in.(*ssa.Send); ok {
+				sends[fn] = true
+			}
+		})
+	}
+	for changed := true; changed; {
+		changed = false
+		for fn, node := range cg.Nodes {
+			if fn == nil || sends[fn] || !c.isRepoFunc(fn) {
+				continue
+			}
+			for _, e := range node.Out {
+				if _, isGo := e.Site.(*ssa.Go); isGo {
+					continue
+				}
+				if e.Callee.Func != nil && sends[e.Callee.Func] {
+					sends[fn] = true
+					changed = true
+					break
+				}
+			}
+		}
+	}
+	for _, fn := range c.srcFuncs() {
+		var mk *ssa.MakeChan
+		allInstrs(fn, func(in ssa.Instruction) {
+			if m, ok := in.(*ssa.MakeChan); ok {
+				mk = m
+			}
+		})
+		if mk == nil {
+			continue
+		}
+		c.site(1)
+		problem := ""
+		node := cg.Nodes[fn]
+		if node != nil {
+			for _, e := range node.Out {
+				if _, isGo := e.Site.(*ssa.Go); isGo || e.Callee.Func == nil || !sends[e.Callee.Func] {
+					continue
+				}
+				if e.Site != nil && e.Site.Parent() == fn {
+					problem = fmt.Sprintf("calls %s, which sends on a channel, synchronously", fname(e.Callee.Func))
+				}
+			}
+		}
+		c.check(problem == "", "chan|"+fname(fn), c.pos(mk.Pos()), fname(fn), "the code that fills the channel runs in its own goroutine", fmt.Sprintf("%s makes a channel and %s: once there is more to send than the buffer holds, the producer blocks before anyone reads (the command hangs on larger inputs)", fname(fn), problem))
+	}
+}
+
+// decodedInside: the named types that are read from YAML as part of another value (below the element level of a
+// top-level slice target), over every yaml decode call of the repo.
+func (c *Ctx) decodedInside() map[*types.Named]bool {
+	if c.decodedInsideCache != nil {
+		return c.decodedInsideCache
+	}
+	out := map[*types.Named]bool{}
+	seen := map[types.Type]bool{}
+	var walk func(t types.Type, inside bool)
+	walk = func(t types.Type, inside bool) {
+		if n := namedOf(t); n != nil && types.Identical(n, t) {
+			if inside {
+				out[n] = true
+			}
+			if seen[t] {
+				return
+			}
+			seen[t] = true
+			if hasMethod(t, "UnmarshalYAML") {
+				// decodes itself: what it reads is judged at its own decode call
+				return
+			}
+		}
+		switch u := t.Underlying().(type) {
+		case *types.Pointer:
+			walk(u.Elem(), inside)
+		case *types.Slice:
+			walk(u.Elem(), inside)
+		case *types.Array:
+			walk(u.Elem(), inside)
+		case *types.Map:
+			walk(u.Elem(), true)
+		case *types.Struct:
+			for i := 0; i < u.NumFields(); i++ {
+				walk(u.Field(i).Type(), true)
+			}
+		}
+	}
+	for _, fn := range c.srcFuncs() {
+		for _, ci := range callsIn(fn) {
+			switch calleeName(ci.Common()) {
+			case "gopkg.in/yaml.v3.Unmarshal", "gopkg.in/yaml.v3.Node.Decode", "gopkg.in/yaml.v3.Decoder.Decode":
+			default:
+				continue
+			}
+			target := ci.Common().Args[len(ci.Common().Args)-1]
+			if mi, ok := target.(*ssa.MakeInterface); ok {
+				target = mi.X
+			}
+			if pt, ok := target.Type().Underlying().(*types.Pointer); ok {
+				// the target itself and, for a slice target, its elements are the decode function's own business
+				t := pt.Elem()
+				if sl, ok := t.Underlying().(*types.Slice); ok {
+					t = sl.Elem()
+					if p, ok := t.Underlying().(*types.Pointer); ok {
+						t = p.Elem()
+					}
+				}
+				if st, ok := t.Underlying().(*types.Struct); ok && !hasMethod(t, "UnmarshalYAML") {
+					seen[t] = true
+					for i := 0; i < st.NumFields(); i++ {
+						walk(st.Field(i).Type(), true)
+					}
+				} else {
+					walk(t, false)
+				}
+			}
+		}
+	}
+	c.decodedInsideCache = out
+	return out
 }
